@@ -149,7 +149,8 @@ class PoolProp:
                    rng.choice(["default", "default", None, 1, 2, 0.5]),
                    res_cap=rng.choice([None, None, 1, 2, 3]), factory=factory,
                    quota=rng.choice([1, 1, 2, 3]) if factory else None, wait_ready=rng.random() < 0.3, calls=calls,
-                   none_inputs=rng.random() < 0.25)
+                   none_inputs=rng.random() < 0.25, body_raises=rng.random() < 0.2,
+                   impatient=(tier != "cover" and rng.random() < 0.15), input_kind=rng.randrange(4))
 
     # ---- transition coverage: every reachable transition of the model for small configurations (harness/cover.py) -------
     cover_limit = 60000
@@ -362,6 +363,7 @@ class PoolProp:
         known = {k["signature"]: k for k in known if k["property"] == self.pid}
         proofs = core.check_proofs(self.pid, leanchecker=(tier == "thorough"))
         n = self.quick_runs if tier == "quick" else self.thorough_runs
+        n *= core.budget_scale(self.anchors, tier, report)
 
         runs = [(cfg, desc, ch, label) for cfg, desc, ch, label in self.corpus()]
         for _ in range(n):
